@@ -6,9 +6,48 @@ from harness import screens as S
 
 common.use_repo_sources()
 
+import itertools
+
 RULE = ("random raw screens (arity 1-3, 0..n_max rows, colliding/empty/non-ASCII/astral names, doses incl. 0, -0.0, negative, "
         "subnormal, repeated), with/without a mapping batchie produced for a superset; malformed stream: mixed plate masks, "
-        "non-dense / non-covering mappings. Non-trivial: >=2 rows, >=1 control cell and >=2 distinct non-control treatments.")
+        "non-dense / non-covering mappings; directed stream: every screen gets a zero-dose non-control cell, a -0.0 cell, a control-name cell "
+        "with positive dose, a name that is a proper prefix/extension of the control name, a duplicated row and the same (name, dose) in two "
+        "columns; exhaustive stream: all arity-1 screens over {ctrl, 'a', 'ab'} x {0.0, -0.0, 1.0, 2.0} with <= 2 (quick) / 3 (thorough) rows. "
+        "Non-trivial: >=2 rows, >=1 control cell and >=2 distinct non-control treatments.")
+
+
+def directed(rng, raw):
+    """inject the boundary features the property text names into a random valid screen (keeps plate-uniform masks)"""
+    a = raw["arity"]
+    ctrl = raw["ctrl"]
+    n = len(raw["snames"])
+    if n == 0:
+        return raw
+    other = [x for x in S.NAME_POOL if x != ctrl]
+    pre = ctrl[:-1] if len(ctrl) > 1 else ctrl + "a"     # proper prefix (or extension) of the control name
+    ext = ctrl + "b"
+    feats = [(rng.choice(other), 0.0), (rng.choice(other), -0.0), (ctrl, rng.choice([1.0, 2.5, 5e-324])),
+             (pre, rng.choice([1.0, 0.0])), (ext, 1.0), (rng.choice(other), -1.0)]
+    for nm, d in feats:
+        r, c = rng.randrange(n), rng.randrange(a)
+        raw["tnames"][r][c], raw["tdoses"][r][c] = nm, d
+    # same (name, dose) in two columns of one row, and one duplicated row (same plate so the mask stays uniform)
+    if a >= 2:
+        r = rng.randrange(n)
+        raw["tnames"][r][1], raw["tdoses"][r][1] = raw["tnames"][r][0], raw["tdoses"][r][0]
+    if n >= 2:
+        i, j = rng.sample(range(n), 2)
+        raw["tnames"][j], raw["tdoses"][j] = list(raw["tnames"][i]), list(raw["tdoses"][i])
+        raw["snames"][j] = raw["snames"][i]
+    return raw
+
+
+def exhaustive_raws(max_rows):
+    cells = [(nm, d) for nm in ("ctl", "a", "ab") for d in (0.0, -0.0, 1.0, 2.0)]
+    for n in range(0, max_rows + 1):
+        for combo in itertools.product(cells, repeat=n):
+            yield dict(ctrl="ctl", arity=1, tnames=[[c[0]] for c in combo], tdoses=[[c[1]] for c in combo],
+                       snames=["s%d" % (i % 2) for i in range(n)], pnames=["p"] * n, obs=None, mask=None, tmap=None, smap=None)
 
 
 def oracle(res, case, raw, s):
@@ -46,6 +85,9 @@ def oracle(res, case, raw, s):
         keys = [(str(nm), float(d)) for nm, d in zip(tm[0], tm[1])]
         if len(set(keys)) != len(keys):
             res.fail("mapping lists a (name, dose) twice", case, keys, "unique keys")
+        cells = set((nm, float(d)) for rn, rd in zip(raw["tnames"], raw["tdoses"]) for nm, d in zip(rn, rd))
+        if set(keys) != cells:
+            res.fail("fresh mapping keys differ from the distinct cells of the data", case, sorted(keys), sorted(cells))
         sm = s.sample_mapping
         if sorted(int(i) for i in sm[1]) != list(range(len(set(raw["snames"])))):
             res.fail("sample ids not dense", case, [int(i) for i in sm[1]], len(set(raw["snames"])))
@@ -78,13 +120,21 @@ def run(ctx, res):
     lines, expect, cases = [], [], []
     n_cases = ctx.scale(300, 5000, 3000)
     n_max = 14 if ctx.tier == "quick" else 40
-    for t in range(n_cases):
-        raw = S.gen_raw(rng, n_max=n_max)
-        kind = "fresh"
-        if rng.random() < 0.35:
+    ex = list(exhaustive_raws(2 if ctx.tier == "quick" and ctx.mode != "search" else 3))
+    for t in range(n_cases + len(ex)):
+        if t >= n_cases:
+            raw = ex[t - n_cases]
+            kind = "exhaustive"
+        else:
+            raw = S.gen_raw(rng, n_max=n_max)
+            kind = "fresh"
+            if rng.random() < 0.4:
+                raw = directed(rng, raw)
+                kind = "directed"
+        if kind != "exhaustive" and rng.random() < 0.35:
             try:
                 raw["tmap"], raw["smap"] = S.superset_mappings(rng, raw)
-                kind = "superset-mapping"
+                kind = kind + "+superset-mapping"
             except Exception:
                 pass
         case = {"kind": kind, "raw": raw}
